@@ -212,6 +212,21 @@ def construction(report, db, cg, M, P):
              (unsupname, 'ValueError'), (999999, 'ValueError'),
              ('no-such-version', 'ValueError'), (None, 'ValueError'),
              (1.5, 'ValueError')]
+    # the whole finite domain: every version name and every protocol number
+    # the tables know -- a name is accepted exactly when it is a supported
+    # name (an unsupported snapshot may share its protocol number with a
+    # supported release), a number exactly when it is a supported number
+    supported_names = P.T['SUPPORTED_MINECRAFT_VERSIONS']
+    seen_args = set(a for a, _ in cases if isinstance(a, (str, int)))
+    for name, proto in P.T['KNOWN_MINECRAFT_VERSIONS'].items():
+        if name not in seen_args:
+            cases.append((name, supported_names[name]
+                          if name in supported_names else 'ValueError'))
+    for proto in P.known:
+        if proto not in seen_args:
+            cases.append((proto, proto if proto in P.supported
+                          else 'ValueError'))
+    nbad = 0
     for arg, want in cases:
         try:
             got = F.call_func(FuncVal(h, closure=Env(h.module)), [arg], {},
@@ -221,9 +236,12 @@ def construction(report, db, cg, M, P):
         if got == want:
             report.ok(R, '%s(%r) -> %r' % (h.name, arg, got))
         else:
-            report.violation(R, 'helper:value:%r' % (arg,), h.path, h.node,
-                             h.qualname, '%s(%r) folds to %r, expected %r'
-                             % (h.name, arg, got, want))
+            nbad += 1
+            if nbad <= 5:
+                report.violation(
+                    R, 'helper:value:%r' % (arg,), h.path, h.node,
+                    h.qualname, '%s(%r) folds to %r, expected %r'
+                    % (h.name, arg, got, want))
 
 
 def does_nothing(S, f):
@@ -672,9 +690,10 @@ def mismatch(report, db, cg, M, P, rule_id='R09.4m'):
 
 
 # ---------------------------------------------------------------------------
-def plain_status(report, db, S, M, P):
-    R = report.rule('R09.6', 'plain status: the handler gets the parsed '
-                    'status exactly once; ping only if requested; every '
+def plain_status(report, db, S, M, P, rule_id='R09.6', only=None):
+    R = report.rule(rule_id, 'plain status: the handler gets the parsed '
+                    'status exactly once, after the connection was closed '
+                    'when the arm closes it; ping only if requested; every '
                     'terminal arm disconnects; status() maps '
                     'False/None/callable and installs the reactor under '
                     'the lock')
@@ -721,6 +740,12 @@ def plain_status(report, db, S, M, P):
         pings = [w for w in shared.written_packets(p, P, db)
                  if obj_class(w[1], 'PingPacket')]
         dcs = [e for e in evs if e.calls(disconnect)]
+        if dcs and hcalls and evs.index(dcs[0]) > evs.index(hcalls[0]):
+            prob['status:handler-before-close'] = (
+                'the status handler runs before the connection is closed: '
+                'a handler that reconnects (as the negotiating reactor '
+                'does) finds the connection still active, or has its new '
+                'connection closed under it')
         if pf is None or len(pings) != (1 if pf else 0) or \
                 len(dcs) != (0 if pf else 1):
             prob['status:ping-guard'] = (
@@ -751,6 +776,13 @@ def plain_status(report, db, S, M, P):
         elif hp:
             a = [x for x in hp[0].args if struct(x) != me]
             now_minus = a[0] if len(a) == 1 else None
+            if evs.index(dcs[0]) > evs.index(hp[0]):
+                prob['status:handler-before-close'] = (
+                    'the latency handler runs before the connection is '
+                    'closed: a handler that reuses the connection object '
+                    'finds it still active (InvalidState), or has the '
+                    'connection it opens closed by the trailing '
+                    'disconnect()')
     if not n_pong:
         prob.setdefault('status:pong-arm', 'no path of the pong arm reports '
                         'the latency')
@@ -767,6 +799,14 @@ def plain_status(report, db, S, M, P):
             'same clock expression and the difference be now - sent' % (
                 show(now_minus) if now_minus else None,
                 show(sent_clock) if sent_clock else None))
+    if only is not None:
+        # another property asks for some of these clauses only
+        for key, msg in sorted(prob.items()):
+            if key in only:
+                report.violation(R, key, fi.path, fi.node, fi.qualname, msg)
+        if not any(k in only for k in prob):
+            report.ok(R, 'status arms: user handlers run after the close')
+        return
     for key, msg in sorted(prob.items()):
         report.violation(R, key, fi.path, fi.node, fi.qualname, msg)
     if not prob:
